@@ -4,6 +4,7 @@ import (
 	"bytes"
 	"fmt"
 	"math/rand/v2"
+	"runtime"
 	"strings"
 	"sync"
 	"sync/atomic"
@@ -32,7 +33,7 @@ type c12Step struct {
 type c12Sched struct {
 	InitGap int64       `json:"gap_after_creation_ns"`
 	Workers [][]c12Step `json:"workers"`
-	Burst   bool        `json:"synchronised_bursts,omitempty"` // every Current() is accompanied by three more calls from goroutines of their own
+	Burst   bool        `json:"synchronised_bursts,omitempty"` // every worker follows the same schedule
 }
 
 type c12Key struct {
@@ -192,30 +193,30 @@ func c12RunOne(s c12Sched) (rprobs []c12Problem, rst c12Stats, bubble string) {
 			}()
 		}
 		time.Sleep(time.Duration(s.InitGap))
+		// synchronised bursts: the workers wake at the same virtual instant but microseconds apart in
+		// real time; a spinning rendezvous per step lets them enter the provider together
+		var arrived []atomic.Int32
+		if s.Burst {
+			arrived = make([]atomic.Int32, len(s.Workers[0]))
+		}
 		for wi, steps := range s.Workers {
 			wg.Add(1)
 			go func(wi int, steps []c12Step) {
 				defer wg.Done()
 				rng := rand.New(rand.NewPCG(uint64(wi), uint64(len(steps))))
-				for _, stp := range steps {
+				for si, stp := range steps {
 					time.Sleep(time.Duration(stp.Sleep))
+					if s.Burst {
+						arrived[si].Add(1)
+						for spin := 0; arrived[si].Load() < int32(len(s.Workers)) && spin < 1000000; spin++ {
+							runtime.Gosched()
+						}
+					}
 					t := time.Now()
 					before := maxSeen.Load()
 					switch stp.Op {
 					case 0:
-						var bw sync.WaitGroup
-						if s.Burst { // more callers at the same instant; their keys are observed like any other
-							for x := 0; x < 3; x++ {
-								bw.Add(1)
-								go func() {
-									defer bw.Done()
-									kx := p.Current()
-									observe(kx, t, "Current")
-								}()
-							}
-						}
 						k := p.Current()
-						bw.Wait()
 						if t2 := time.Now(); !t2.Equal(t) {
 							report("harness|virtual time advanced during a call", nil)
 						}
